@@ -21,6 +21,11 @@ def framing2(timeout=900):
     h.what = "real video_source_thread, TWO frames, the camera's shape changes between them (frame 0: 1-byte image, frame 1: fully symbolic shape): each frame is sized and described by its own shape"
     return h
 
+def iteration():
+    return H("packet_iteration", "harness/runtime/iter.c", repo=[], env=[], defines=[], cflags=rc.cflags(VERIF), unwind=6, solver="cadical", timeout=900, mem_gb=12,
+             what="real frame_iterator_next, vfslice_split_at_delay_ms and trash_append on an end-anchored packet of 1..3 frames with symbolic sizes: every header visited once, in order, stop exactly at the packet end, no read outside",
+             bounds=dict(frames="1..3", image_bytes="0..16 each", delay="0 and >0 with the first too-new frame at any index"))
+
 def aligned_steps(tier):
     R = 3
     hs = []
@@ -31,12 +36,12 @@ def aligned_steps(tier):
     return hs
 
 def harnesses(tier, findings):
-    hs = [framing(), framing2()] + aligned_steps(tier)
+    hs = [framing(), framing2(), iteration()] + aligned_steps(tier)
     return hs
 
 META = dict(
     level="model_checking",
-    bounds=dict(quick="framing: every ImageShape with plane stride <= 2^37 and every sample type; alignment induction: 3 reader slots, 64-bit state; packet walk: mock storage / client in the unit and runtime harnesses (C04, C06)",
+    bounds=dict(quick="framing: every ImageShape with plane stride <= 2^37 and every sample type; alignment induction: 3 reader slots, 64-bit state; iteration by the size field: frame_iterator, vfslice split and trash walk on packets of 1..3 frames with symbolic sizes; packet structure also checked by the mock storage / client in the unit and runtime harnesses (C04, C06)",
                 thorough="same"),
     outside="clients that consume a byte count that is not a sum of whole frames; frame averaging output (checked under C10)",
     assumptions=["mock camera with symbolic shape; ring without readers for the framing harness", "as C01 for the induction steps"],
